@@ -1,6 +1,8 @@
 (* C03 - Stored configuration is the gNMI-sequential effect of acknowledged Sets.
    Statements only; proofs live in Proofs/MergeProofs.v, PathProofs.v, PruneProofs.v, StoreProofs.v, CommitProofs.v,
-   CommitExample.v, MergeRefute.v, WildcardProofs.v.
+   CommitExample.v, MergeRefute.v, WildcardProofs.v, and (histories, abstraction) StoreFullProofs.v, CommitPreserve.v,
+   CommitHistory.v, CommitHistoryEx.v, PathAbstraction.v, PathAbstractionC16.v, GnmiHistory.v, GnmiHistoryEx.v,
+   (wildcards) WildcardElements.v, GnmiGet.v, GnmiGetEx.v, (reader's view) CfgViewProofs.v.
 
    Proved for ALL inputs (repaired code, 3126412 / 6e6477b / 6c3f66e):
    - C03_commit_refines: the live leaves a Get reads after reconcileCommit has merged a change map into ANY stored
@@ -8,17 +10,52 @@
      leaves before: an update sets its leaf, a delete removes the node and what lies strictly beneath it at a path
      element boundary, nothing else changes - whatever the Go map iteration orders.  There is no hypothesis about
      stored tombstones: a value written beneath a path deleted earlier is there afterwards.
+   - C03_commit_preserves: the commit + store write RE-ESTABLISH the hypotheses of C03_commit_refines (keys = paths,
+     distinct, proper, `clean`, indexes below the next transaction's) and the stored map names / holds live only what the
+     old map or the request named / updated.
+   - C03_history (UNBOUNDED, every list of requests): folding commit + store write from the empty store over any
+     history satisfying the per-request guards (history_ok: keys = paths, distinct, proper, no update beneath a delete
+     of the same request, values stamped with strictly increasing transaction indexes, leaf discipline = no request
+     names a path strictly beneath a path some request updates) gives live = the fold of the sequential text-level
+     effect spec_step, which never looks at what is stored.  C03_history_invariant: the store is clean etc. after
+     every such history; C03_history_inhabited: a 5-request history with container / whole-list / partial-key deletes
+     and re-creation satisfies the guards.
+   - C03_elements_history (UNBOUNDED, against Spec/Gnmi.v which shares nothing with the model): for every history of
+     requests given on ELEMENT LISTS (steps), rendered to text as the Set handler does and turned into change maps by
+     computeChange + the transaction index, what Get reads at the text of ANY well-formed path is what the reference
+     gnmi_history holds for that path; C03_elements_complete: nothing else is live in the store.
+   - C03_below_is_proper_prefix / C03_render_injective: the abstraction from text to element lists - for well-formed
+     steps (no '/' '[' in names, no '=' in key names, no ']' in key values, names not empty) IsPathBelow on the texts
+     is exactly "proper prefix of the steps" (container above children, key-less list name above every entry, leading
+     keys above the entries having them), and distinct paths have distinct texts; C03_accepted_paths: every gNMI path
+     the Set handler accepts (C16's accepted_gpath) prints (utils.StrPath) as the rendering of well-formed steps.
    - C03_merge_refines / C03_order_independent: the same for the in-memory merge alone, and its independence of
      the iteration order of both maps.
    - C03_get_exact_literal, C03_siblings_unaffected, C03_children_below, C03_applied_separate.
    Refuted with concrete witnesses (open finding F-14-C03): a request that deletes a path and updates it or
    something beneath it (C03_order_refuted, C03_overlap_store_refuted, C03_same_path_refuted) - hence no_overlap.
-   NOT proved (covered by the differential and end-to-end checks only): that the store write re-establishes `clean`
-   (so no theorem over whole histories), wildcard queries, the abstraction of textual paths to element lists. *)
+   - C03_get_wildcard (UNBOUNDED): for a query given as query steps (names, keys, "*" as an element name, [k=*], "..." as
+     an element; literals over the legal path characters without '.', "..." last or followed by an element name / "*" /
+     "...") and printed as text, MatchWildcardRegexp(text) accepts the text of a path (names, key names, key values over
+     [a-zA-Z0-9_:,-.]) exactly when the query steps match a prefix of the path's steps (Spec/Gnmi.v qmatch): wildcards
+     stop at element boundaries.  C03_get_wildcard_filter: the Get filter returns exactly those live values.
+     C03_get_reference: after ANY history as in C03_elements_history whose paths are over the legal characters, the
+     leaves Get returns for such a query are exactly the leaves of the reference configuration gnmi_history the query
+     matches.  C03_get_wildcard_inhabited: six queries on the example history.
+   - C03_view_is_committed / C03_events_refine (UNBOUNDED): along ANY interleaving of acknowledged Sets (status update of
+     proposal initialize + commit), further status updates and recordings of applied values, what configurations.Get
+     shows (inline copy of the entry overlaid with the Atomix map, view_values) IS the committed map run_history
+     produces from the Sets alone, hence its live leaves are the sequential effect of the Sets.
+   NOT proved (covered by the differential and end-to-end checks only): writes whose version check fails (stale_update)
+   and concurrent writers are outside the event model; queries outside the grammar above ("*" inside a name, a dot in a query literal, "..." before a
+   key); key values containing '*' (allowed by IndexAllowedChars, not matched by "*"). *)
 From Coq Require Import List NArith Bool Permutation String.
 Local Open Scope string_scope.
-From OC Require Import Base.Bytes Model.Merge Model.CfgStore Model.Wildcard
-     Proofs.MergeProofs Proofs.PathProofs Proofs.CommitProofs Proofs.CommitExample Proofs.MergeRefute Proofs.WildcardProofs.
+From OC Require Import Base.Bytes Model.Merge Model.CfgStore Model.Wildcard Model.Path Spec.Gnmi
+     Proofs.MergeProofs Proofs.PathProofs Proofs.CommitProofs Proofs.CommitExample Proofs.MergeRefute Proofs.WildcardProofs
+     Proofs.CommitPreserve Proofs.CommitHistory Proofs.CommitHistoryEx
+     Proofs.PathAbstraction Proofs.PathAbstractionC16 Proofs.GnmiHistory Proofs.GnmiHistoryEx
+     Proofs.WildcardElements Proofs.GnmiGet Proofs.GnmiGetEx Proofs.CfgViewProofs.
 Import ListNotations.
 Open Scope N_scope.
 Open Scope list_scope.
@@ -130,3 +167,155 @@ Theorem C03_applied_separate : forall s idx ch,
   cs_map (apply_update s idx ch) = cs_map s /\ cs_map (status_update s) = cs_map s.
 Proof. intros s idx ch. split; [apply apply_keeps_committed | apply status_keeps_committed]. Qed.
 Print Assumptions C03_applied_separate.
+
+(* ---- the commit re-establishes its own hypotheses.
+   older idx M: every stored value has an index below idx;  stamped idx ch: every change value carries idx *)
+Theorem C03_commit_preserves : forall idx M ch,
+  keys_ok M -> nodup M -> proper_keys M -> clean M ->
+  keys_ok ch -> nodup ch -> proper_keys ch -> no_overlap ch ->
+  leaf_ok M ch -> older idx M -> stamped idx ch ->
+  keys_ok (persist_commit M idx ch) /\ nodup (persist_commit M idx ch) /\ proper_keys (persist_commit M idx ch) /\
+  clean (persist_commit M idx ch) /\ older (N.succ idx) (persist_commit M idx ch) /\
+  (forall q, In q (map fst (persist_commit M idx ch)) -> In q (map fst ch) \/ In q (map fst M)) /\
+  (forall p, live (persist_commit M idx ch) p <> None ->
+             (exists c, In (p, c) ch /\ pv_deleted c = false) \/ live M p <> None).
+Proof. exact commit_preserves. Qed.
+Print Assumptions C03_commit_preserves.
+
+(* ---- whole histories (unbounded).
+   run_history M [(i1,ch1);...] = persist_commit (... (persist_commit M i1 ch1) ...) in chn
+   spec_step L ch p = match ch[p] with Some c => live_of c | None => if some delete of ch has p strictly beneath it then None else L p
+   spec_history L h = fold of spec_step over h
+   history_ok h = every request req_ok (keys_ok, nodup, proper_keys, no_overlap, stamped with its index)
+                  /\ indexes strictly increasing /\ leaf_discipline (no request names a path strictly beneath an updated path) *)
+Theorem C03_history : forall h, history_ok h ->
+  forall p, live (run_history [] h) p = spec_history (fun _ => None) h p.
+Proof. exact history_refines. Qed.
+Print Assumptions C03_history.
+
+Theorem C03_history_invariant : forall h, history_ok h ->
+  keys_ok (run_history [] h) /\ nodup (run_history [] h) /\ proper_keys (run_history [] h) /\ clean (run_history [] h) /\
+  (forall p, live (run_history [] h) p <> None -> updated (map snd h) p).
+Proof. exact history_invariant. Qed.
+Print Assumptions C03_history_invariant.
+
+(* from any stored map satisfying the invariant (past = the requests that built it, b = a bound on its indexes) *)
+Theorem C03_history_from : forall h past b M,
+  st_inv past b M -> Forall req_ok h -> indexes_from b h -> leaf_discipline (past ++ map snd h) ->
+  (forall p, live (run_history M h) p = spec_history (live M) h p) /\
+  exists b', st_inv (past ++ map snd h) b' (run_history M h).
+Proof. exact history_refines_gen. Qed.
+Print Assumptions C03_history_from.
+
+Theorem C03_history_inhabited :
+  history_ok exH /\
+  live (run_history [] exH) (B "/a/b") = Some (B "2") /\
+  live (run_history [] exH) (B "/a/c/d") = Some (B "7") /\
+  live (run_history [] exH) (B "/l[k=1]/v") = None /\
+  live (run_history [] exH) (B "/l[k=2]/v") = Some (B "2") /\
+  live (run_history [] exH) (B "/x") = None /\
+  live (run_history [] exH) (B "/xy") = Some (B "2") /\
+  spec_history (fun _ => None) exH (B "/a/c/d") = Some (B "7") /\
+  spec_history (fun _ => None) exH (B "/l[k=1]/v") = None.
+Proof. exact history_example. Qed.
+Print Assumptions C03_history_inhabited.
+
+(* ---- text <-> element lists.  render [SName a; SName l; SKey k 1; SName v] = "/a/l[k=1]/v";
+   spath_wf: names not empty and without '/' '[', key names without '=', key values without ']' *)
+Theorem C03_below_is_proper_prefix : forall p q, spath_wf p -> spath_wf q -> q <> [] ->
+  is_path_below (PathAbstraction.render p) (PathAbstraction.render q) = sprefix q p && negb (eqb_spath q p).
+Proof. exact below_is_proper_sprefix. Qed.
+Print Assumptions C03_below_is_proper_prefix.
+
+Theorem C03_render_injective : forall p q, spath_wf p -> spath_wf q ->
+  PathAbstraction.render p = PathAbstraction.render q -> p = q.
+Proof. exact render_injective. Qed.
+Print Assumptions C03_render_injective.
+
+(* every path the Set handler accepts prints as the rendering of well-formed steps (name, then keys sorted by name) *)
+Theorem C03_accepted_paths : forall p, accepted_gpath p = true ->
+  str_path p = PathAbstraction.render (steps_of p) /\ spath_wf (steps_of p) /\ steps_of p <> [].
+Proof. exact accepted_path_steps. Qed.
+Print Assumptions C03_accepted_paths.
+
+(* ---- the stored configuration against the reference semantics Spec/Gnmi.v (unbounded).
+   text_req (i, r) = (i, with_index i (compute_change (rendered updates of r) (rendered deletes of r)))
+   ghistory_ok h = every request: well-formed non-empty paths, no path twice, no update at or beneath a delete;
+                   indexes strictly increasing; an updated path is never a proper prefix of a named path *)
+Theorem C03_elements_history : forall h, ghistory_ok h ->
+  forall sp, spath_wf sp ->
+  live (run_history [] (map text_req h)) (PathAbstraction.render sp) = glookup (gnmi_history [] (map snd h)) sp.
+Proof. exact elements_history_refines. Qed.
+Print Assumptions C03_elements_history.
+
+Theorem C03_elements_complete : forall h, ghistory_ok h ->
+  forall p, live (run_history [] (map text_req h)) p <> None ->
+  exists sp, gupdated (map snd h) sp /\ p = PathAbstraction.render sp.
+Proof. exact elements_history_complete. Qed.
+Print Assumptions C03_elements_complete.
+
+Theorem C03_elements_inhabited :
+  ghistory_ok exG /\
+  PathAbstraction.render [nm "m"; ky "k1" "a"; ky "k2" "b"; nm "v"] = B "/m[k1=a][k2=b]/v" /\
+  glookup (gnmi_history [] (map snd exG)) [nm "a"; nm "c"; nm "d"] = Some (B "7") /\
+  live (run_history [] (map text_req exG)) (B "/a/c/d") = Some (B "7") /\
+  live (run_history [] (map text_req exG)) (B "/l[k=1]/v") = None /\
+  live (run_history [] (map text_req exG)) (B "/l[k=2]/v") = Some (B "2") /\
+  live (run_history [] (map text_req exG)) (B "/m[k1=a][k2=b]/v") = None /\
+  live (run_history [] (map text_req exG)) (B "/m[k1=c][k2=b]/v") = Some (B "8") /\
+  live (run_history [] (map text_req exG)) (B "/x") = None /\
+  live (run_history [] (map text_req exG)) (B "/xy") = Some (B "2").
+Proof. exact elements_history_example. Qed.
+Print Assumptions C03_elements_inhabited.
+
+(* ---- Get with wildcards.  qrender [QName a; QAnyName; QKey k 1; QAnyKey j; QDeep] = "/a/*[k=1][j=*]/..."
+   query_wf: names not empty, literals over [a-zA-Z0-9_:,-] (the legal characters without the dot), "..." is the last
+   step or an element name / "*" / "..." follows;  lpath: names not empty, names / key names / key values over
+   [a-zA-Z0-9_:,-.] (what "*" stands for) *)
+Theorem C03_get_wildcard : forall q p, query_wf q -> lpath p ->
+  match_wildcard (qrender q) false (PathAbstraction.render p) = qmatch q p.
+Proof. exact wildcard_elements. Qed.
+Print Assumptions C03_get_wildcard.
+
+Theorem C03_get_wildcard_filter : forall values q, query_wf q ->
+  (forall pv, In pv (map snd values) -> exists sp, lpath sp /\ pv_path pv = PathAbstraction.render sp) ->
+  forall pv, In pv (get_filter values (qrender q)) <->
+             In pv (map snd values) /\ pv_deleted pv = false /\
+             exists sp, lpath sp /\ pv_path pv = PathAbstraction.render sp /\ qmatch q sp = true.
+Proof. exact get_filter_elements. Qed.
+Print Assumptions C03_get_wildcard_filter.
+
+(* Sets then a Get, against the reference: legal_history h = every path of every request is an lpath *)
+Theorem C03_get_reference : forall h q, ghistory_ok h -> legal_history h -> query_wf q ->
+  forall t v,
+    In (t, v) (get_leaves (run_history [] (map text_req h)) (qrender q)) <->
+    exists sp, t = PathAbstraction.render sp /\ glookup (gnmi_history [] (map snd h)) sp = Some v /\ qmatch q sp = true.
+Proof. exact get_history_reference. Qed.
+Print Assumptions C03_get_reference.
+
+Theorem C03_get_wildcard_inhabited :
+  legal_history exG /\
+  query_wf [qn "l"; QAnyKey (B "k"); qn "v"] /\ query_wf [QDeep; qn "v"] /\ query_wf [qn "a"; QAnyName] /\
+  query_wf [qn "x"] /\ query_wf [qn "m"; QKey (B "k1") (B "c")] /\ query_wf [qn "a"; QDeep] /\
+  qrender [qn "l"; QAnyKey (B "k"); qn "v"] = B "/l[k=*]/v" /\
+  qrender [QDeep; qn "v"] = B "/.../v" /\
+  get_leaves exStore (B "/l[k=*]/v") = [(B "/l[k=2]/v", B "2")] /\
+  get_leaves exStore (B "/.../v") = [(B "/l[k=2]/v", B "2"); (B "/m[k1=c][k2=b]/v", B "8")] /\
+  get_leaves exStore (B "/a/*") = [(B "/a/b", B "2"); (B "/a/c/d", B "7")] /\
+  get_leaves exStore (B "/x") = [] /\
+  get_leaves exStore (B "/m[k1=c]") = [(B "/m[k1=c][k2=b]/v", B "8")] /\
+  get_leaves exStore (B "/a/...") = [(B "/a/b", B "2"); (B "/a/c/d", B "7")].
+Proof. exact get_wildcard_example. Qed.
+Print Assumptions C03_get_wildcard_inhabited.
+
+(* ---- the reader's view along whole runs of the store model.
+   event = ESet idx ch (set_cycle) | EStatus (status_update) | EApplied idx ch (apply_update); sets_of keeps the Sets *)
+Theorem C03_view_is_committed : forall evs, history_ok (sets_of evs) ->
+  view_values (fold_left step_event evs cfg0) = run_history [] (sets_of evs).
+Proof. exact events_view. Qed.
+Print Assumptions C03_view_is_committed.
+
+Theorem C03_events_refine : forall evs, history_ok (sets_of evs) ->
+  forall p, live (view_values (fold_left step_event evs cfg0)) p = spec_history (fun _ => None) (sets_of evs) p.
+Proof. exact events_refine. Qed.
+Print Assumptions C03_events_refine.
